@@ -273,6 +273,7 @@ var (
 	errV = errors.New("validity closure says no")
 	errE = errors.New("equality closure says no")
 	errM = errors.New("marshal closure says no")
+	errU = errors.New("unmarshal closure gave up half-way")
 )
 
 type polInst struct {
@@ -284,6 +285,7 @@ type polInst struct {
 	rpf          bool
 	eqf          int // 0 none, 1 -> nil, 2 -> errE
 	umf          bool
+	umfPartial   bool // the installed Unmarshaler answers with a partial slice AND an error
 	maf          bool
 	evl          bool
 	basicRefused bool
@@ -328,7 +330,7 @@ func c14PolOps(isCond bool) []polOp {
 			f(in)
 			if before.ro && n != "SetErr(nil)" && !strings.HasPrefix(n, "SetReadOnly") {
 				// refused: the call was made, the closures stay as they were
-				in.vpf, in.rpf, in.eqf, in.umf, in.maf, in.evl, in.basicRefused = before.vpf, before.rpf, before.eqf, before.umf, before.maf, before.evl, before.basicRefused
+				in.vpf, in.rpf, in.eqf, in.umf, in.maf, in.evl, in.basicRefused, in.umfPartial = before.vpf, before.rpf, before.eqf, before.umf, before.maf, before.evl, before.basicRefused, before.umfPartial
 			}
 		}})
 	}
@@ -338,6 +340,7 @@ func c14PolOps(isCond bool) []polOp {
 	eqNil := func(a, b any) error { return nil }
 	eqErr := func(a, b any) error { return errE }
 	unm := func(...any) ([]any, error) { return []any{"UNMARSHALED"}, nil }
+	unmPartial := func(...any) ([]any, error) { return []any{"UNMARSHALED"}, errU }
 	mar := c14Marshaler
 	evl := c14Evaluator
 	if isCond {
@@ -350,9 +353,10 @@ func c14PolOps(isCond bool) []polOp {
 		add("SetEqualityPolicy(error-result)", func(in *polInst) { in.cd.SetEqualityPolicy(eqErr); in.eqf = 2 })
 		add("SetEqualityPolicy()", func(in *polInst) { in.cd.SetEqualityPolicy(); in.eqf = 0 })
 		add("SetEqualityPolicy(nil)", func(in *polInst) { in.cd.SetEqualityPolicy(nil); in.eqf = 0 })
-		add("SetUnmarshaler(fn)", func(in *polInst) { in.cd.SetUnmarshaler(unm); in.umf = true })
-		add("SetUnmarshaler()", func(in *polInst) { in.cd.SetUnmarshaler(); in.umf = false })
-		add("SetUnmarshaler(nil)", func(in *polInst) { in.cd.SetUnmarshaler(nil); in.umf = false })
+		add("SetUnmarshaler(fn)", func(in *polInst) { in.cd.SetUnmarshaler(unm); in.umf, in.umfPartial = true, false })
+		add("SetUnmarshaler(partial result + error)", func(in *polInst) { in.cd.SetUnmarshaler(unmPartial); in.umf, in.umfPartial = true, true })
+		add("SetUnmarshaler()", func(in *polInst) { in.cd.SetUnmarshaler(); in.umf, in.umfPartial = false, false })
+		add("SetUnmarshaler(nil)", func(in *polInst) { in.cd.SetUnmarshaler(nil); in.umf, in.umfPartial = false, false })
 		add("SetEvaluator(fn)", func(in *polInst) { in.cd.SetEvaluator(evl); in.evl = true })
 		add("SetEvaluator(nil)", func(in *polInst) { in.cd.SetEvaluator(nil); in.evl = false })
 		add("SetReadOnly(true)", func(in *polInst) { in.cd.SetReadOnly(true); in.ro = true })
@@ -382,9 +386,10 @@ func c14PolOps(isCond bool) []polOp {
 	add("SetEqualityPolicy(error-result)", func(in *polInst) { in.s.SetEqualityPolicy(eqErr); in.eqf = 2 })
 	add("SetEqualityPolicy()", func(in *polInst) { in.s.SetEqualityPolicy(); in.eqf = 0 })
 	add("SetEqualityPolicy(nil)", func(in *polInst) { in.s.SetEqualityPolicy(nil); in.eqf = 0 })
-	add("SetUnmarshaler(fn)", func(in *polInst) { in.s.SetUnmarshaler(unm); in.umf = true })
-	add("SetUnmarshaler()", func(in *polInst) { in.s.SetUnmarshaler(); in.umf = false })
-	add("SetUnmarshaler(nil)", func(in *polInst) { in.s.SetUnmarshaler(nil); in.umf = false })
+	add("SetUnmarshaler(fn)", func(in *polInst) { in.s.SetUnmarshaler(unm); in.umf, in.umfPartial = true, false })
+	add("SetUnmarshaler(partial result + error)", func(in *polInst) { in.s.SetUnmarshaler(unmPartial); in.umf, in.umfPartial = true, true })
+	add("SetUnmarshaler()", func(in *polInst) { in.s.SetUnmarshaler(); in.umf, in.umfPartial = false, false })
+	add("SetUnmarshaler(nil)", func(in *polInst) { in.s.SetUnmarshaler(nil); in.umf, in.umfPartial = false, false })
 	add("SetMarshaler(fn)", func(in *polInst) { in.s.SetMarshaler(mar); in.maf = true })
 	add("SetMarshaler()", func(in *polInst) { in.s.SetMarshaler(); in.maf = false })
 	add("SetMarshaler(nil)", func(in *polInst) { in.s.SetMarshaler(nil); in.maf = false })
@@ -499,8 +504,8 @@ func c14PolMachine(c *Ctx, kind string) *Machine[*polInst] {
 				u, uerr := in.cd.Unmarshal()
 				tu, _ := in.ct.Unmarshal()
 				if in.umf {
-					if uerr != nil || len(u) != 1 || u[0] != "UNMARSHALED" {
-						bad("cond-unmarshal", "Unmarshal()=%v,%v want the closure's result", u, uerr)
+					if (uerr != nil) != in.umfPartial || (in.umfPartial && uerr != errU) || len(u) != 1 || u[0] != "UNMARSHALED" {
+						bad("cond-unmarshal", "Unmarshal()=%v,%v want the closure's result (slice and error exactly as the closure hands them back; partial+error variant: %v)", u, uerr, in.umfPartial)
 					}
 				} else if !reflect.DeepEqual(u, tu) {
 					bad("cond-unmarshal", "Unmarshal()=%v want the built-in %v", u, tu)
@@ -569,8 +574,8 @@ func c14PolMachine(c *Ctx, kind string) *Machine[*polInst] {
 			}
 			u, uerr := s.Unmarshal()
 			if in.umf {
-				if uerr != nil || len(u) != 1 || u[0] != "UNMARSHALED" {
-					bad("unmarshal", "Unmarshal()=%v,%v want the closure's result", u, uerr)
+				if (uerr != nil) != in.umfPartial || (in.umfPartial && uerr != errU) || len(u) != 1 || u[0] != "UNMARSHALED" {
+					bad("unmarshal", "Unmarshal()=%v,%v want the closure's result (slice and error exactly as the closure hands them back; partial+error variant: %v)", u, uerr, in.umfPartial)
 				}
 			} else if tu, _ := in.tw.Unmarshal(); in.extra == 0 && !reflect.DeepEqual(u, tu) {
 				bad("unmarshal", "Unmarshal()=%v want the built-in %v", u, tu)
